@@ -51,16 +51,17 @@ Definition admin_change_ok (o : op) (d : string) (a a' : option string) : Prop :
   | _ => False
   end.
 
-(** what may happen to one account's balance of one denom *)
-Definition bal_change_ok (o : op) (acct d : string) (b b' : Z) : Prop :=
+(** what may happen to one account's balance of one denom; blocked accounts (module accounts other
+    than gov) are never a mint target or a burn source *)
+Definition bal_change_ok (blocked : list string) (o : op) (acct d : string) (b b' : Z) : Prop :=
   match o with
-  | Mint sender d0 _ amt to => d0 = d /\ acct = resolve to sender /\ b' = b + amt
-  | Burn sender d0 _ amt from => d0 = d /\ acct = resolve from sender /\ b' = b - amt /\ 0 <= b'
+  | Mint sender d0 _ amt to => d0 = d /\ acct = resolve to sender /\ b' = b + amt /\ mem_str acct blocked = false
+  | Burn sender d0 _ amt from => d0 = d /\ acct = resolve from sender /\ b' = b - amt /\ 0 <= b' /\ mem_str acct blocked = false
   | BurnNative sender d0 _ amt => d0 = d /\ acct = sender /\ b' = b - amt /\ 0 <= b'
   | _ => False
   end.
 
-Definition step_P (strict : bool) (prev : snap) (o : op) (ok : bool) (cur : snap) : Prop :=
+Definition step_P (strict : bool) (blocked : list string) (prev : snap) (o : op) (ok : bool) (cur : snap) : Prop :=
   (* a rejected message changes nothing *)
   (ok = false -> cur = prev) /\
   (* supply of any tracked denom moves only by an admin-signed mint / burn, by the stated amount *)
@@ -78,16 +79,16 @@ Definition step_P (strict : bool) (prev : snap) (o : op) (ok : bool) (cur : snap
      minted and leave only the signer's own balance *)
   (forall acct d b', In (acct, d, b') (sn_bal cur) ->
      exists b, lookup2 acct d (sn_bal prev) = Some b /\
-       (b' <> b -> ok = true /\ bal_change_ok o acct d b b' /\
+       (b' <> b -> ok = true /\ bal_change_ok blocked o acct d b b' /\
                    (validate_denom d = false -> acct = sender_of o /\ b' < b))) /\
   (* nothing is created or destroyed on the side: balance changes add up to the supply change *)
   (forall d v', In (d, v') (sn_supply cur) ->
      forall v, lookup d (sn_supply prev) = Some v -> delta_bal d (sn_bal prev) (sn_bal cur) = v' - v).
 
-Fixpoint P (strict : bool) (prev : snap) (t : list (op * bool * snap)) : Prop :=
+Fixpoint P (strict : bool) (blocked : list string) (prev : snap) (t : list (op * bool * snap)) : Prop :=
   match t with
   | [] => True
-  | (o, ok, cur) :: r => step_P strict prev o ok cur /\ P strict cur r
+  | (o, ok, cur) :: r => step_P strict blocked prev o ok cur /\ P strict blocked cur r
   end.
 
 (* ------------------------------------------------------------------ boolean checker *)
@@ -155,15 +156,15 @@ Definition admin_change_ok_b (o : op) (d : string) (a a' : option string) : bool
   | _ => false
   end.
 
-Definition bal_change_ok_b (o : op) (acct d : string) (b b' : Z) : bool :=
+Definition bal_change_ok_b (blocked : list string) (o : op) (acct d : string) (b b' : Z) : bool :=
   match o with
-  | Mint sender d0 _ amt to => String.eqb d0 d && String.eqb acct (resolve to sender) && (b' =? b + amt)
-  | Burn sender d0 _ amt from => String.eqb d0 d && String.eqb acct (resolve from sender) && (b' =? b - amt) && (0 <=? b')
+  | Mint sender d0 _ amt to => String.eqb d0 d && String.eqb acct (resolve to sender) && (b' =? b + amt) && negb (mem_str acct blocked)
+  | Burn sender d0 _ amt from => String.eqb d0 d && String.eqb acct (resolve from sender) && (b' =? b - amt) && (0 <=? b') && negb (mem_str acct blocked)
   | BurnNative sender d0 _ amt => String.eqb d0 d && String.eqb acct sender && (b' =? b - amt) && (0 <=? b')
   | _ => false
   end.
 
-Definition step_Pb (strict : bool) (prev : snap) (o : op) (ok : bool) (cur : snap) : bool :=
+Definition step_Pb (strict : bool) (blocked : list string) (prev : snap) (o : op) (ok : bool) (cur : snap) : bool :=
   (ok || snap_eqb cur prev) &&
   forallb (fun e : string * Z => let '(d, v') := e in
              match lookup d (sn_supply prev) with
@@ -186,7 +187,7 @@ Definition step_Pb (strict : bool) (prev : snap) (o : op) (ok : bool) (cur : sna
   forallb (fun e : string * string * Z => let '(acct, d, b') := e in
              match lookup2 acct d (sn_bal prev) with
              | Some b => (b' =? b) ||
-                         (ok && bal_change_ok_b o acct d b b' &&
+                         (ok && bal_change_ok_b blocked o acct d b b' &&
                           (validate_denom d || (String.eqb acct (sender_of o) && (b' <? b))))
              | None => false
              end) (sn_bal cur) &&
@@ -196,10 +197,10 @@ Definition step_Pb (strict : bool) (prev : snap) (o : op) (ok : bool) (cur : sna
              | None => false
              end) (sn_supply cur).
 
-Fixpoint Pb (strict : bool) (prev : snap) (t : list (op * bool * snap)) : bool :=
+Fixpoint Pb (strict : bool) (blocked : list string) (prev : snap) (t : list (op * bool * snap)) : bool :=
   match t with
   | [] => true
-  | (o, ok, cur) :: r => step_Pb strict prev o ok cur && Pb strict cur r
+  | (o, ok, cur) :: r => step_Pb strict blocked prev o ok cur && Pb strict blocked cur r
   end.
 
 (* ------------------------------------------------------------------ soundness *)
@@ -267,15 +268,15 @@ Proof.
     apply opt_str_eqb_eq in H2, H3. auto.
 Qed.
 
-Lemma bal_change_ok_b_sound o acct d b b' : bal_change_ok_b o acct d b b' = true -> bal_change_ok o acct d b b'.
+Lemma bal_change_ok_b_sound blocked o acct d b b' : bal_change_ok_b blocked o acct d b b' = true -> bal_change_ok blocked o acct d b b'.
 Proof.
   destruct o; simpl; try discriminate.
-  - rewrite !andb_true_iff, !String.eqb_eq, Z.eqb_eq. intros [[H1 H2] H3]. auto.
-  - rewrite !andb_true_iff, !String.eqb_eq, Z.eqb_eq, Z.leb_le. intros [[[H1 H2] H3] H4]. auto.
+  - rewrite !andb_true_iff, !String.eqb_eq, Z.eqb_eq, negb_true_iff. intros [[[H1 H2] H3] H4]. auto.
+  - rewrite !andb_true_iff, !String.eqb_eq, Z.eqb_eq, Z.leb_le, negb_true_iff. intros [[[[H1 H2] H3] H4] H5]. auto.
   - rewrite !andb_true_iff, !String.eqb_eq, Z.eqb_eq, Z.leb_le. intros [[[H1 H2] H3] H4]. auto.
 Qed.
 
-Lemma step_Pb_sound strict prev o ok cur : step_Pb strict prev o ok cur = true -> step_P strict prev o ok cur.
+Lemma step_Pb_sound strict blocked prev o ok cur : step_Pb strict blocked prev o ok cur = true -> step_P strict blocked prev o ok cur.
 Proof.
   unfold step_Pb, step_P. rewrite !andb_true_iff. intros [[[[[H1 H2] H3] H4] H5] H6].
   rewrite forallb_forall in H2, H3, H5, H6.
@@ -306,7 +307,7 @@ Proof.
   - intros d v' Hin v Hl. specialize (H6 _ Hin). simpl in H6. rewrite Hl in H6. apply Z.eqb_eq in H6. exact H6.
 Qed.
 
-Lemma Pb_sound strict : forall t prev, Pb strict prev t = true -> P strict prev t.
+Lemma Pb_sound strict blocked : forall t prev, Pb strict blocked prev t = true -> P strict blocked prev t.
 Proof.
   induction t as [|[[o ok] cur] r IH]; intros prev H; simpl in *; auto.
   apply andb_true_iff in H as [H1 H2]. split; [apply step_Pb_sound; exact H1 | apply IH; exact H2].
